@@ -28,6 +28,9 @@ inductive Item where
   | msg (status : Nat) (body : Option Bytes) (isHead : Bool)   -- one message; `none` = any body
   | raw (bs : Bytes)                                            -- exactly these bytes
   | interim100
+  /-- a response whose body reader failed: at most one response (possibly cut short, possibly
+      nothing at all), and it is the last thing on this connection's wire -/
+  | partialLast (status : Nat)
 deriving Repr, Inhabited
 
 structure Expectation where
@@ -44,6 +47,10 @@ def finishItems (isHead : Bool) : Finish → List Item
   | .drop => [.msg 500 (some []) isHead]
   | .writer ops => [.raw (wopsBytes ops)]
   | .upgrade _ r ops => [.msg r.status none false, .raw (wopsBytes ops)]
+  | .respondFail r n =>
+    if r.pieces.flatten.length ≤ n then
+      [.msg r.status (some (if bodySuppressed isHead r.status then [] else r.pieces.flatten)) isHead]
+    else [.partialLast r.status]
 
 /-- the nine methods of RFC 7231 / RFC 5789 and the variant each must map to. -/
 def standardMethods : List (Bytes × Bytes) :=
@@ -83,6 +90,15 @@ def matchWire : List Item → Bytes → Bool
     (match Client.decode false w with
      | some (m, w') => m.status == 100 && matchWire rest w'
      | none => false)
+  | .partialLast st :: _, w =>
+    -- nothing, or one (possibly truncated) response with that status and no second status line
+    w.isEmpty ||
+      ((match Client.splitLine w with
+        | some (sl, _) => (match Client.parseStatusLine sl with
+            | some (_, s) => s == st
+            | none => false)
+        | none => false)
+       && !containsSub (w.drop 5) b!"HTTP/1.")
   | .msg st body isHead :: rest, w =>
     (match Client.decode isHead w with
      | some (m, w') =>
@@ -108,8 +124,18 @@ def headOk (r : IReq) (o : Obs) : Bool :=
   o.method == r.method && o.mkind == methodKind r.method && o.url == r.url && o.version == r.version
     && o.headers == r.headers && o.bodyLength == r.declared
 
+/-- is the body of this request streamed from the socket (as opposed to absent or buffered)? -/
+def streamedBody (r : IReq) : Bool :=
+  !r.upgrade && (match r.declared with
+    | some n => decide (1024 < n) || (r.expect100 && decide (0 < n))
+    | none => r.headers.any (·.is b!"Transfer-Encoding"))
+
 def bodyOk (r : IReq) (a : Action) (o : Obs) : Bool :=
   if a.asReaderCalls == 0 || a.readTotal == 0 then o.bodyRead.isEmpty && o.readEnd == "none"
+  else if a.zeroRead && streamedBody r then
+    -- a read with an empty buffer ends a streamed body for the application (documented quirk of
+    -- the EOF fuse; C03's quantifier starts at 1-byte reads): nothing more is readable
+    o.bodyRead.isEmpty && o.readEnd == "eof"
   else o.bodyRead == r.body.take a.readTotal
         && o.readEnd == (if r.body.length < a.readTotal then "eof" else "none")
 
